@@ -317,6 +317,18 @@ func TestC01_TrustRule(t *testing.T) {
 				rt.Fatalf("VerifyCertificate returned neither an error nor a result%s", c01Describe(u, e))
 			}
 			c01Record(u, e, bad)
+			// A trust pool is long-lived and is asked again and again: the answer at another instant must
+			// follow the rule for THAT instant, whatever the same pool answered before.
+			l := u.leaf
+			e2 := *e
+			e2.t = rapid.SampledFrom([]int64{l.spec.NB - 1, l.spec.NB, l.spec.NA, l.spec.NA + 1, l.spec.NB + (l.spec.NA-l.spec.NB)/2, e.t}).Draw(rt, "tagain")
+			bad2 := c01Predicate(u, &e2)
+			if _, err2 := pool.VerifyCertificate(time.Unix(e2.t, 0), l.cert); (err2 == nil) != (len(bad2) == 0) {
+				rt.Fatalf("second question to the same pool (first at t=%d answered %v): VerifyCertificate verdict %v at t=%d, trust rule says false conjuncts=%v%s", e.t-cgT0, err, err2, e2.t-cgT0, bad2, c01Describe(u, &e2))
+			}
+			if (len(bad) == 0) != (len(bad2) == 0) {
+				vk.Label("C01", "same-pool-asked-again-with-the-other-verdict")
+			}
 		}
 	})
 }
